@@ -27,13 +27,16 @@ func (r *recGen) GenerateKey(h string) string { r.hashes = append(r.hashes, h); 
 func (r *recGen) PutBack(h, u string)         {}
 
 type c16State struct {
-	gen    *client.SimpleIdempotentKeyGenerator
-	cap    int
-	tokID  map[string]int    // uuid -> canonical number (first appearance)
-	hashID map[string]int    // md5 -> canonical number
-	fp     string            // fingerprint of the request the last builder produced (request as sent, token removed)
-	hashFP map[string]string // md5 -> fingerprint of the first request that hashed to it
-	fpHash map[string]string // fingerprint -> md5
+	gen                  *client.SimpleIdempotentKeyGenerator
+	cap                  int
+	tokID                map[string]int    // uuid -> canonical number (first appearance)
+	hashID               map[string]int    // md5 -> canonical number
+	api                  *c16API           // OpenAPI wrappers over a scripted transport (c16api.go)
+	lastGen, lastGenHash string            // what the generator issued last, and for which hash
+	apiFailed            map[string]string // hash -> token of the failed API call that has not been retried yet
+	fp                   string            // fingerprint of the request the last builder produced (request as sent, token removed)
+	hashFP               map[string]string // md5 -> fingerprint of the first request that hashed to it
+	fpHash               map[string]string // fingerprint -> md5
 	// monitor state
 	out      map[string]bool   // tokens in flight
 	prov     map[string]string // token -> hash of first issue
@@ -374,6 +377,12 @@ func c16Exec(c *Ctx, ops []string) []string {
 					}
 					return "", err
 				})
+			case "tok.acreate", "tok.aassign4", "tok.aassign6", "tok.aeflo":
+				want := map[string]int{"tok.acreate": 12, "tok.aassign4": 4, "tok.aassign6": 4, "tok.aeflo": 13}[f[0]]
+				if len(f) != want {
+					return "bad-op"
+				}
+				return s.apiOp(c, f, trace)
 			case "tok.fcreate", "tok.fassign4", "tok.fassign6":
 				// the whole request flow on the real generator: build, (fail -> roll back)
 				fail := f[len(f)-1] == "1"
@@ -432,8 +441,12 @@ type flowGen struct {
 	trace []string
 }
 
-func (f *flowGen) GenerateKey(h string) string { return f.s.generate(f.c, h, f.trace) }
-func (f *flowGen) PutBack(h, u string)         { f.s.putBack(h, u) }
+func (f *flowGen) GenerateKey(h string) string {
+	u := f.s.generate(f.c, h, f.trace)
+	f.s.lastGen, f.s.lastGenHash = u, h
+	return u
+}
+func (f *flowGen) PutBack(h, u string) { f.s.putBack(h, u) }
 
 func c16Run(c *Ctx) {
 	r := c.R
@@ -571,6 +584,37 @@ func c16Run(c *Ctx) {
 			}
 		}
 		c.Count("flow-history")
+		add(ops, fails > 0)
+	}
+	// (d) the same fail / retry histories through the real OpenAPI wrappers over a scripted HTTP transport
+	for i := 0; i < c.Scale(150, 2500); i++ {
+		ops := []string{"tok.new 500", "tok.hreset"}
+		var ps []*c16Params
+		for k := 0; k < 1+r.Intn(3); k++ {
+			ps = append(ps, genParams(r))
+		}
+		fails := 0
+		for k := 0; k < 3+r.Intn(c.Scale(10, 20)); k++ {
+			fail := "0"
+			if r.Chance(50) {
+				fail = "1"
+				fails++
+			}
+			switch x := r.Intn(100); {
+			case x < 45:
+				ops = append(ops, "tok.acreate "+Pick(r, ps).line()+" "+fail)
+			case x < 70:
+				p := Pick(r, ps)
+				if fail == "1" && r.Chance(50) {
+					fail = "2" // HTTP 200 with a business error code
+				}
+				l := p.line()
+				ops = append(ops, fmt.Sprintf("tok.aeflo %s %s %s %s", l[:strings.LastIndex(l, " ")], hexStr("i-1"), hexStr("z1"), fail))
+			default:
+				ops = append(ops, fmt.Sprintf("tok.aassign%d %s %d %s", Pick(r, []int{4, 6}), hexStr(Pick(r, []string{"eni-1", "eni-2"})), 1+r.Intn(2), fail))
+			}
+		}
+		c.Count("api-history")
 		add(ops, fails > 0)
 	}
 }
